@@ -21,7 +21,18 @@ pub const FLAT_STRUCTS: &[(&str, &str)] = &[
 ];
 
 /// types whose values are only passed around: Lean type variables
-pub const OPAQUE_TYPES: &[&str] = &["Square"];
+pub const OPAQUE_TYPES: &[&str] = &["Square", "Captures", "Match", "Piece", "ColoredPiece"];
+
+/// argument types of opaque methods / associated functions that take arguments other than plain parameters: (receiver type, method, argument types)
+pub const OPAQUE_ARGS: &[(&str, &str, &[&str])] = &[
+    ("Captures", "get", &["usize"]),
+    ("Fen", "parse", &["str"]),
+    ("Piece", "from_index", &["usize"]),
+    ("Square", "from_index", &["usize"]),
+];
+
+/// associated types of trait impls: (self type, name, type)
+pub const ASSOC_TYPES: &[(&str, &str, &str)] = &[("Fen", "Err", "FenParseError")];
 
 /// OPAQUE TABLE TYPES: a value of such a type (a parameter `magics: &Magics`, a local chosen between two globals) is
 /// represented by its lookup FUNCTION: (type name, the one method that may be called on it, argument types, result type)
@@ -246,4 +257,79 @@ pub const TARGETS: &[Target] = &[
     // ---- the legality filter over generated moves (`is_move_legal` = make; is_valid; unmake modifies `self`)
     Target { module: "GenerateLegal", file: BOARD, container: Impl("Bitboard"), name: "generate_legal_moves", what: CHECK },
     Target { module: "GenerateLegal", file: BOARD, container: Impl("Bitboard"), name: "is_any_move_legal", what: CHECK },
+    // ---- FEN text: the `Fen` value (text + byte ranges of the regex groups), its getters (4-field defaults) (C12)
+    Target { module: "FenText", file: FEN, container: Free, name: "Fen", what: What::Struct { bits: true } },
+    Target { module: "FenText", file: FEN, container: Impl("Fen"), name: "get_piece_placement", what: PLAIN },
+    Target { module: "FenText", file: FEN, container: Impl("Fen"), name: "get_active_color", what: PLAIN },
+    Target { module: "FenText", file: FEN, container: Impl("Fen"), name: "get_castling_availability", what: PLAIN },
+    Target { module: "FenText", file: FEN, container: Impl("Fen"), name: "get_en_passant_target_square", what: PLAIN },
+    Target { module: "FenText", file: FEN, container: Impl("Fen"), name: "get_halfmove_clock", what: PLAIN },
+    Target { module: "FenText", file: FEN, container: Impl("Fen"), name: "get_fullmove_clock", what: PLAIN },
+    // ---- FEN -> board: `FenParseExt for Fen`, `From<&Fen> for Bitboard` (C12)
+    Target { module: "FenDecode", file: BOARD_CONSTS, container: Free, name: "square_shift_from_index", what: BITS },
+    Target { module: "FenDecode", file: BOARD_CONSTS, container: Free, name: "square_mask_from_index", what: BITS },
+    Target { module: "FenDecode", file: BOARD_CONSTS, container: Free, name: "square_shift_from_fen_unchecked", what: BITS },
+    Target { module: "FenDecode", file: BOARD, container: Impl("PlayerState"), name: "queens_ref", what: What::PlaceFn },
+    Target { module: "FenDecode", file: BOARD, container: Impl("PlayerState"), name: "bishops_ref", what: What::PlaceFn },
+    Target { module: "FenDecode", file: BOARD, container: Impl("PlayerState"), name: "knights_ref", what: What::PlaceFn },
+    Target { module: "FenDecode", file: BOARD, container: ImplTrait("FenParseExt", "Fen"), name: "parse_turn", what: BITS },
+    Target { module: "FenDecode", file: BOARD, container: ImplTrait("FenParseExt", "Fen"), name: "parse_en_passant_square_shift", what: BITS },
+    Target { module: "FenDecode", file: BOARD, container: ImplTrait("FenParseExt", "Fen"), name: "parse_fullmove_clock", what: BITS },
+    Target { module: "FenDecode", file: BOARD, container: ImplTrait("FenParseExt", "Fen"), name: "parse_halfmove_clock", what: BITS },
+    Target { module: "FenDecode", file: BOARD, container: ImplTrait("FenParseExt", "Fen"), name: "parse_player_states", what: BITS },
+    Target { module: "FenDecode", file: BOARD, container: ImplTrait("From<&Fen>", "Bitboard"), name: "from", what: BITS },
+    // ---- `Fen::from_str`: everything but the regex match (`Fen::parse`, opaque): `validate_ranks`, the clock checks, the `Fen` value (C12)
+    Target { module: "FenFromStr", file: FEN, container: Impl("Fen"), name: "validate_ranks", what: PLAIN },
+    Target {
+        module: "FenFromStr", file: FEN, container: ImplTrait("FromStr", "Fen"), name: "from_str",
+        what: What::Fn {
+            opaque: &[
+                Opaque { recv: "Self", method: "default", ret: "Self" },
+                Opaque { recv: "Self", method: "parse", ret: "Result<Captures, FenParseError>" },
+                Opaque { recv: "Captures", method: "get", ret: "Option<Match>" },
+                Opaque { recv: "Match", method: "range", ret: "Range<usize>" },
+            ],
+            vec_list: false, bits: false,
+        },
+    },
+    // ---- board -> FEN text: `From<&Bitboard> for Fen` (C12); the data tables of `inkayaku_core::constants` (`Square`, `Piece`, `ColoredPiece`) are opaque
+    Target {
+        module: "FenWrite", file: BOARD, container: Impl("PlayerState"), name: "find_piece_struct_by_square_mask",
+        what: What::Fn { opaque: &[Opaque { recv: "Piece", method: "from_index", ret: "Option<Piece>" }], vec_list: true, bits: true },
+    },
+    Target {
+        module: "FenWrite", file: BOARD, container: Impl("Bitboard"), name: "get_colored_piece",
+        what: What::Fn {
+            opaque: &[
+                Opaque { recv: "Piece", method: "from_index", ret: "Option<Piece>" },
+                Opaque { recv: "Square", method: "mask", ret: "u64" },
+                Opaque { recv: "Piece", method: "to_white", ret: "ColoredPiece" },
+                Opaque { recv: "Piece", method: "to_black", ret: "ColoredPiece" },
+            ],
+            vec_list: true, bits: true,
+        },
+    },
+    Target {
+        module: "FenWrite", file: BOARD_LIB, container: Free, name: "square_to_string",
+        what: What::Fn { opaque: &[Opaque { recv: "Square", method: "from_index", ret: "Option<Square>" }, Opaque { recv: "Square", method: "fen", ret: "str" }], vec_list: true, bits: true },
+    },
+    Target {
+        module: "FenWrite", file: BOARD, container: ImplTrait("From<&Bitboard>", "Fen"), name: "from",
+        what: What::Fn {
+            opaque: &[
+                Opaque { recv: "Piece", method: "from_index", ret: "Option<Piece>" },
+                Opaque { recv: "Square", method: "mask", ret: "u64" },
+                Opaque { recv: "Piece", method: "to_white", ret: "ColoredPiece" },
+                Opaque { recv: "Piece", method: "to_black", ret: "ColoredPiece" },
+                Opaque { recv: "ColoredPiece", method: "fen", ret: "char" },
+                Opaque { recv: "Square", method: "from_index", ret: "Option<Square>" },
+                Opaque { recv: "Square", method: "fen", ret: "str" },
+                Opaque { recv: "Self", method: "default", ret: "Self" },
+                Opaque { recv: "Self", method: "parse", ret: "Result<Captures, FenParseError>" },
+                Opaque { recv: "Captures", method: "get", ret: "Option<Match>" },
+                Opaque { recv: "Match", method: "range", ret: "Range<usize>" },
+            ],
+            vec_list: true, bits: true,
+        },
+    },
 ];
